@@ -50,6 +50,13 @@ def case_strategy(draw: Any, runners: List[str]) -> Dict[str, Any]:
     if root and draw(st.integers(0, 3)) == 0:
         # the mount prefix occurs again further down the path: only the leading one is SCRIPT_NAME
         rest = rest + root + draw(st.sampled_from(["", "/x", root]))
+    outside = None
+    if root and draw(st.integers(0, 7)) == 0:
+        # a request path that does not lie under root_path: no SCRIPT_NAME / PATH_INFO split
+        # can reflect it (the wrapper answers 404 itself)
+        outside = draw(st.sampled_from(["/zz" + rest, root[:-1] or "/", "/", root[1:] + "/x"]))
+        if outside.startswith(root) or not outside.startswith("/"):
+            outside = "/zz"
     limit = draw(st.sampled_from([0, 1, 5, 16, 64, 64, 1 << 20]))
     size = draw(st.one_of(st.integers(0, 80),
                           st.sampled_from([max(0, limit - 1), limit, limit + 1])))
@@ -72,7 +79,7 @@ def case_strategy(draw: Any, runners: List[str]) -> Dict[str, Any]:
         "runner": draw(st.sampled_from(runners)),
         "scope_type": draw(st.sampled_from(["http"] * 9 + ["websocket"])),
         "method": draw(st.sampled_from(["GET", "POST", "PUT", "DELETE", "QUERY"])),
-        "root_path": root, "rest": rest,
+        "root_path": root, "rest": rest, "outside_path": outside,
         "query": draw(st.text(alphabet="abc=&%20+", max_size=10)),
         "http_version": draw(st.sampled_from(["1.0", "1.1", "2"])),
         "scheme": draw(st.sampled_from(["http", "https"])),
@@ -205,7 +212,7 @@ def build_app(case: Dict[str, Any], probe: Probe) -> Any:
 
 
 def make_scope(case: Dict[str, Any]) -> Dict[str, Any]:
-    path = case["root_path"] + case["rest"]
+    path = case.get("outside_path") or (case["root_path"] + case["rest"])
     headers = [(s2b(n), v.encode("latin-1")) for n, v in case["headers"]]
     scope: Dict[str, Any] = {
         "type": case["scope_type"], "http_version": case["http_version"],
@@ -420,6 +427,20 @@ def run_case(case: Dict[str, Any]) -> CaseInfo:
         if len(starts) != 1 or starts[0]["status"] != 400 or exc is not None:
             raise Violation("oversize_not_400", f"sent={sent} exc={exc!r}")
         return CaseInfo(near_limit, classes + ["over_limit"])
+
+    if case.get("outside_path"):
+        if probe.calls:
+            env = probe.calls[0]
+            got = (env.get("SCRIPT_NAME", "") + env.get("PATH_INFO", ""))
+            if got != case["outside_path"].encode("utf-8").decode("latin-1"):
+                raise Violation("environ_mismatch", f"request path {case['outside_path']!r} is "
+                                f"not under root_path {case['root_path']!r}, application called "
+                                f"with SCRIPT_NAME {env.get('SCRIPT_NAME')!r} PATH_INFO "
+                                f"{env.get('PATH_INFO')!r}", key="SCRIPT_NAME+PATH_INFO")
+        elif len(starts) != 1 or starts[0]["status"] != 404 or exc is not None \
+                or not bodies or bodies[-1].get("more_body"):
+            raise Violation("path_outside_root_not_404", f"sent={sent} exc={exc!r}")
+        return CaseInfo(True, classes + ["outside_root_path"])
 
     if len(probe.calls) != 1:
         raise Violation("wsgi_call_count", f"{len(probe.calls)} calls (body {case['body_len']}, "
